@@ -193,6 +193,10 @@ type Val struct {
 	C int    `json:"c,omitempty"` // union: index of the case
 	E []Val  `json:"e,omitempty"` // struct fields / slice elements / union: the case struct
 	P int    `json:"p,omitempty"`
+	// A (slice node of b only): build this node by re-slicing the node at the same place of a, so that the
+	// two operands share memory: "same" = the very same slice value, "prefix" = without its last element
+	// (what slice.PopLast returns), "suffix" = without its first (slice.Tail). Not part of the value.
+	A string `json:"a,omitempty"`
 }
 
 func refEq(a, b Val) bool {
@@ -317,6 +321,57 @@ func mutate(rt *rapid.T, t reflect.Type, v Val) Val {
 	return out
 }
 
+// aliased returns a copy of v in which one slice node (chosen at random among those reachable without
+// crossing an unexported field) shares memory with the same node of the first operand: the same slice
+// value, or that value without its last / first element. ok is false when v has no such node.
+func aliased(rt *rapid.T, t reflect.Type, v Val) (Val, bool) {
+	type place struct{ path []int }
+	var places []place
+	var walk func(t reflect.Type, v Val, path []int)
+	walk = func(t reflect.Type, v Val, path []int) {
+		switch v.K {
+		case "struct":
+			for i := range v.E {
+				if t.Field(i).IsExported() {
+					walk(t.Field(i).Type, v.E[i], append(append([]int{}, path...), i))
+				}
+			}
+		case "union":
+			walk(unionCases[t][v.C], v.E[0], append(append([]int{}, path...), 0))
+		case "slice":
+			places = append(places, place{path})
+			for i := range v.E {
+				walk(t.Elem(), v.E[i], append(append([]int{}, path...), i))
+			}
+		}
+	}
+	walk(t, v, nil)
+	if len(places) == 0 {
+		return v, false
+	}
+	pl := places[rapid.IntRange(0, len(places)-1).Draw(rt, "aliasPlace")]
+	mode := rapid.SampledFrom([]string{"same", "prefix", "prefix", "suffix"}).Draw(rt, "aliasMode")
+	var rebuild func(v Val, path []int) Val
+	rebuild = func(v Val, path []int) Val {
+		out := v
+		out.E = append([]Val{}, v.E...)
+		if len(path) == 0 {
+			switch {
+			case mode == "same" || len(out.E) == 0:
+				out.A = "same"
+			case mode == "prefix":
+				out.A, out.E = "prefix", out.E[:len(out.E)-1]
+			default:
+				out.A, out.E = "suffix", out.E[1:]
+			}
+			return out
+		}
+		out.E[path[0]] = rebuild(v.E[path[0]], path[1:])
+		return out
+	}
+	return rebuild(v, pl.path), true
+}
+
 func setField(f reflect.Value, x reflect.Value) {
 	if !f.CanSet() {
 		f = reflect.NewAt(f.Type(), unsafe.Pointer(f.UnsafeAddr())).Elem()
@@ -325,7 +380,14 @@ func setField(f reflect.Value, x reflect.Value) {
 }
 
 // build makes the Go value of type t described by v, deterministically.
-func build(t reflect.Type, v Val) reflect.Value {
+func build(t reflect.Type, v Val) reflect.Value { return buildPeer(t, v, reflect.Value{}) }
+
+// buildPeer is build with the already built first operand at hand: peer is the part of it at the place
+// being built (invalid when there is none), used by slice nodes that ask to share its memory.
+func buildPeer(t reflect.Type, v Val, peer reflect.Value) reflect.Value {
+	if peer.IsValid() && (!peer.CanInterface() || peer.Type() != t) {
+		peer = reflect.Value{}
+	}
 	switch t.Kind() {
 	case reflect.Int:
 		return reflect.ValueOf(v.I)
@@ -336,19 +398,41 @@ func build(t reflect.Type, v Val) reflect.Value {
 	case reflect.Struct:
 		out := reflect.New(t).Elem()
 		for i := 0; i < t.NumField(); i++ {
-			setField(out.Field(i), build(t.Field(i).Type, v.E[i]))
+			var p reflect.Value
+			if peer.IsValid() {
+				p = peer.Field(i)
+			}
+			setField(out.Field(i), buildPeer(t.Field(i).Type, v.E[i], p))
 		}
 		return out
 	case reflect.Interface:
 		ct := unionCases[t][v.C]
 		out := reflect.New(t).Elem()
-		out.Set(build(ct, v.E[0]))
+		var p reflect.Value
+		if peer.IsValid() && !peer.IsNil() {
+			p = peer.Elem()
+		}
+		out.Set(buildPeer(ct, v.E[0], p))
 		return out
 	case reflect.Slice:
 		n := len(v.E)
+		if v.A != "" && peer.IsValid() {
+			switch {
+			case v.A == "same" && peer.Len() == n:
+				return peer
+			case v.A == "prefix" && peer.Len() == n+1:
+				return peer.Slice(0, n)
+			case v.A == "suffix" && peer.Len() == n+1:
+				return peer.Slice(1, n+1)
+			}
+		}
 		elems := make([]reflect.Value, n)
 		for i := range elems {
-			elems[i] = build(t.Elem(), v.E[i])
+			var p reflect.Value
+			if peer.IsValid() && i < peer.Len() {
+				p = peer.Index(i)
+			}
+			elems[i] = buildPeer(t.Elem(), v.E[i], p)
 		}
 		filler := reflect.Zero(t.Elem())
 		if n > 0 {
@@ -422,8 +506,9 @@ func check(c Case) error {
 	if r == nil {
 		return fmt.Errorf("unknown root type %q", c.Root)
 	}
-	x := build(r.typ, c.X).Interface()
-	y := build(r.typ, c.Y).Interface()
+	xv := build(r.typ, c.X)
+	x := xv.Interface()
+	y := buildPeer(r.typ, c.Y, xv).Interface()
 	x2 := build(r.typ, c.X).Interface()
 	want := refEq(c.X, c.Y)
 	show := func(v any) string { return fmt.Sprintf("%#v", v) }
@@ -505,8 +590,16 @@ func TestOpEqual(t *testing.T) {
 		r := roots[rapid.IntRange(0, len(roots)-1).Draw(rt, "root")]
 		c := Case{Root: r.name}
 		c.X = genVal(rt, r.typ, 0)
-		kind := rapid.SampledFrom([]string{"copy", "copy", "mutant", "mutant", "independent", "triple"}).Draw(rt, "pairKind")
+		kind := rapid.SampledFrom([]string{"copy", "copy", "mutant", "mutant", "independent", "triple", "shared", "shared"}).Draw(rt, "pairKind")
 		switch kind {
+		case "shared":
+			// b shares memory with a: one of its slices is a's slice itself, or a re-slice of it
+			y, ok := aliased(rt, r.typ, c.X)
+			if !ok {
+				kind = "copy"
+				y = repath(rt, c.X)
+			}
+			c.Y = y
 		case "copy":
 			c.Y = repath(rt, c.X)
 		case "mutant":
